@@ -60,6 +60,27 @@ def padSpecB (x : Dy) (k : Nat) : Bool :=
   -- candidates: the clamped value itself, or (when k = 0) any non-positive ceiling
   if k = 0 then decide (x.m ≤ 0)
   else if k = usizeMax then decide (((usizeMax : Int) - 1) * x.den < x.m)
-  else isCeilB x.m x.den k
+  else decide (k < usizeMax) && isCeilB x.m x.den k
+
+/-! ## Laws assumed of the scalar type in the value theorems
+
+A commutative ring with a division satisfying `a / b = a · (1 / b)` and `0 / a = 0`, a map
+`turn = x ↦ cis(2πx)` that turns addition into multiplication, and a faithful zero test.  Every field
+with `turn x = exp(2πi·x)` satisfies them (`Props.lean` shows this for ℂ); IEEE doubles do not
+(rounding) — that gap is the declared partial part of C32. -/
+
+open Scalar in
+structure Laws (K : Type) [Scalar K] : Prop where
+  mul_assoc : ∀ a b c : K, mul (mul a b) c = mul a (mul b c)
+  mul_comm : ∀ a b : K, mul a b = mul b a
+  zero_mul : ∀ a : K, mul zero a = zero
+  one_mul : ∀ a : K, mul one a = a
+  zero_add : ∀ a : K, add zero a = a
+  add_assoc : ∀ a b c : K, add (add a b) c = add a (add b c)
+  zero_div : ∀ a : K, div zero a = zero
+  div_def : ∀ a b : K, div a b = mul a (div one b)
+  turn_zero : turn (zero : K) = one
+  turn_add : ∀ a b : K, turn (add a b) = mul (turn a) (turn b)
+  isZero_iff : ∀ a : K, isZero a = true ↔ a = zero
 
 end QV.C32
